@@ -54,20 +54,22 @@ func gen(a Args, out *Out) {
 		{6, connsim.GatedReaderFirst},
 		{10, connsim.GatedPartialFrameClose},
 		{30, func(r *Rng) (string, connsim.Cfg) { return connsim.FreeStream(r, false) }},
-		{16, func(r *Rng) (string, connsim.Cfg) { return connsim.FreeStream(r, true) }},
+		{10, func(r *Rng) (string, connsim.Cfg) { return connsim.FreeStream(r, true) }},
 		{12, connsim.FreeRace},
 		{10, connsim.FreeInbound},
 		{14, connsim.FreeImmediate},
 		{12, connsim.FreeOversizeTail},
 		{12, connsim.WriteFail},
-		{10, connsim.FreeUnreadInbound},
+		{6, connsim.FreeUnreadInbound},
 		{6, connsim.FreeLateInput},
 		{3, connsim.FreeMidFrameTimeout},
 		{3, connsim.FreeCoalesced},
 		{8, connsim.FreeChunkedInbound},
-		{8, connsim.FreeTransportBacklog},
-		{8, connsim.FreeServerGC},
-		{24, connsim.FreeEnv},
+		{4, connsim.FreeTransportBacklog},
+		{5, connsim.FreeServerGC},
+		{16, connsim.FreeEnv},
+		{6, connsim.FreeReentrantConsumer},
+		{6, connsim.FreePhases},
 		{6, connsim.FreePartialFrameClose},
 		{2, connsim.FreePeerPause},
 		{1, connsim.FreePeerPauseDefault},
